@@ -15,7 +15,7 @@ Proof. exact strG_ok. Qed.
 Definition ex_value : pyv :=
   PDict [(KStr "a", PTuple [PInt 1%Z; PFloat FInf; PList [PTuple []]]); (KInt 7%Z, PDict [(KInt (-3)%Z, PNone)])].
 Example normalise_example :
-  jsonable ex_value = true /\ is_json ex_value = false /\
+  is_json ex_value = false /\
   normalise ex_value = PDict [(KStr "a", PList [PInt 1%Z; PFloat FInf; PList [PList []]]); (KStr "7", PDict [(KStr "-3", PNone)])]
   /\ is_json (normalise ex_value) = true.
 Proof. repeat split; vm_compute; reflexivity. Qed.
@@ -27,7 +27,7 @@ Example graph_guards_example :
   dosing strG (cs_g strG sys_cp) = Some [central] /\
   cs_from_dict strG (cs_to_dict strG sys_cp) = Some sys_cp /\
   cs_from_dict strG (normalise (cs_to_dict strG sys_cp)) = Some sys_cp /\
-  cs_eq strG sys_cp sys_cp = Some true.
+  cs_eq strG sys_cp sys_cp = true.
 Proof. repeat split; vm_compute; reflexivity. Qed.
 
 (* a model with parameters, a joint distribution, statements around a system, two steps, a
@@ -40,7 +40,7 @@ Definition ex_levels_eta : list vlevel := [mkLevel "IIV" true (Some "ID"); mkLev
 Definition ex_levels_eps : list vlevel := [mkLevel "RUV" true None].
 Definition ex_rvs : rvs strG :=
   mkRvs strG [DNormal strG (mkNormal strG "ETA_3" "IIV" zero "Symbol('OMEGA')");
-              DJoint strG (mkJoint strG SList ["ETA_1"; "ETA_2"] "IIV" "MutableDenseMatrix([[Integer(0)], [Integer(0)]])"
+              DJoint strG (mkJoint strG ["ETA_1"; "ETA_2"] "IIV" "MutableDenseMatrix([[Integer(0)], [Integer(0)]])"
                                   "MutableDenseMatrix([[Symbol('O11'), Symbol('O21')], [Symbol('O21'), Symbol('O22')]])")]
         ex_levels_eta ex_levels_eps.
 Definition ex_stmts : list (stmt strG) :=
@@ -49,12 +49,12 @@ Definition ex_stmts : list (stmt strG) :=
    SAssign strG (mkAssign strG "Symbol('Y')" "Add(Symbol('F'), Symbol('EPS_1'))")].
 Definition ex_steps : list (step strG) :=
   [StEst strG (mkEst strG "FOCE" true (Some "SANDWICH") false (Some 9999%Z) false None None None None
-                     SList ["CWRES"] SList ["IPRED"; "PRED"] (DStrs strG SList ["(ETA_1,)"]) false
+                     ["CWRES"] ["IPRED"; "PRED"] (DStrs strG ["(ETA_1,)"]) false
                      (mkCommon (Some "LSODA") None (Some (NInt 6%Z)) [(KStr "NITER", PInt 5%Z); (KStr "opt", PList [PInt 1%Z])]));
    StSim strG (mkSim 300%Z 64206%Z (mkCommon None None None []))].
 Definition ex_di : datainfo strG :=
-  mkDi strG [mkColumn strG "APGR" "covariate" one "ratio" (Some false) (PList [PInt 1%Z; PInt 2%Z]) false "float64" None;
-             mkColumn strG "SEX" "covariate" "kilogram" "nominal" (Some false) (PDict [(KStr "1", PStr "m")]) true "int32" (Some "age")]
+  mkDi strG [mkColumn strG "APGR" "covariate" one "ratio" (Some false) (CTuple [PInt 1%Z; PInt 2%Z]) false "float64" None;
+             mkColumn strG "SEX" "covariate" "kilogram" "nominal" (Some false) (CMap [(KStr "1", PStr "m")]) true "int32" (Some "age")]
        (Some "/data/pheno.dta") "," "-99".
 Definition ex_model : model strG :=
   mkModel strG "run1" "a description" ex_params ex_rvs ex_stmts ex_steps ex_di "PREDICTION"
@@ -67,12 +67,10 @@ Proof. intros kv [E|[]]. subst. reflexivity. Qed.
 Example model_guards_example :
   forallb (stmt_ok strG) (m_statements strG ex_model) = true /\
   forallb (stmt_eq_ok strG) (m_statements strG ex_model) = true /\
-  forallb (dist_json_ok strG) (rv_dists strG (m_rvs strG ex_model)) = true /\
   forallb (step_json_ok strG) (m_steps strG ex_model) = true /\
   forallb (column_json_ok strG) (di_columns strG (m_datainfo strG ex_model)) = true /\
-  jsonable (model_to_dict strG ex_model) = true /\
   model_from_dict strG (normalise (model_to_dict strG ex_model)) = Some (strip strG ex_model) /\
-  model_eq strG (strip strG ex_model) ex_model = Some true.
+  model_eq strG (strip strG ex_model) ex_model = true.
 Proof. repeat split; vm_compute; reflexivity. Qed.
 
 (* the same with tuple-valued fields and canonical derivatives: the guards of model_roundtrip *)
@@ -89,12 +87,12 @@ Proof. repeat split; try (vm_compute; reflexivity). discriminate. Qed.
 (* hash hypotheses: a dumps that separates the two dictionaries of the order witness and a digest
    that separates the two inputs exist, and the two keys are then indeed different and defined *)
 Definition ex_dumps (v : pyv) : string :=
-  if pyv_same (normalise v) (normalise (model_to_dict strG (blank strG M_cp))) then "1" else "0".
+  if pyv_same (normalise v) (normalise (model_encode strG (blank strG M_yz))) then "1" else "0".
 Example hash_hypotheses_example :
-  let d := model_to_dict strG (blank strG M_cp) in let d' := model_to_dict strG (blank strG M_pc) in
+  let d := model_encode strG (blank strG M_yz) in let d' := model_encode strG (blank strG M_zy) in
   dumps_sep ex_dumps d d' /\ H_sep (fun s : string => s) ("ds" ++ ex_dumps d) ("ds" ++ ex_dumps d') /\
-  key strG ex_dumps string (fun s => s) "ds" M_cp = Some "ds1" /\
-  key strG ex_dumps string (fun s => s) "ds" M_pc = Some "ds0".
+  key strG ex_dumps string (fun s => s) "ds" M_yz = "ds1" /\
+  key strG ex_dumps string (fun s => s) "ds" M_zy = "ds0".
 Proof.
   cbn zeta. repeat split; try (vm_compute; reflexivity).
   - intros E. vm_compute in E. discriminate.
@@ -115,11 +113,11 @@ Proof. vm_compute. intro E. discriminate. Qed.
 (* the hypotheses of compartmental_system_dict_iff_order on the order witness: == says equal, the
    enumeration orders differ, and so do the dictionaries; a system has the same order as itself *)
 Example dict_iff_order_example :
-  cs_ok strG sys_cp = true /\ cs_ok strG sys_pc = true /\ cs_eq strG sys_cp sys_pc = Some true /\
+  cs_ok strG sys_cp = true /\ cs_ok strG sys_pc = true /\ cs_eq strG sys_cp sys_pc = true /\
   same_enum strG (cs_g strG sys_cp) (cs_g strG sys_pc) = false /\
   pyv_same (cs_to_dict strG sys_cp) (cs_to_dict strG sys_pc) = false /\
   same_enum strG (cs_g strG sys_cp) (cs_g strG sys_cp) = true /\
-  zip_all (stmt_same_enum strG) ex_stmts ex_stmts = true /\ stmts_eq strG ex_stmts ex_stmts = Some true.
+  zip_all (stmt_same_enum strG) ex_stmts ex_stmts = true /\ stmts_eq strG ex_stmts ex_stmts = true.
 Proof. repeat split; vm_compute; reflexivity. Qed.
 
 (* a builder history (two compartments, three flows, one flow entered twice) *)
@@ -129,22 +127,28 @@ Example builder_example :
                  BAddFlow strG (NComp strG central) (NComp strG periph) k12] = cs_g strG sys_cp.
 Proof. vm_compute. reflexivity. Qed.
 
-(* hash_complete: two different models (names held as a tuple / as a list) with the same JSON
-   image; a dumps that writes a value like its normal form; the keys agree *)
-Definition joint_list : dist strG :=
-  DJoint strG (mkJoint strG SList ["ETA_1"; "ETA_2"] "IIV" "MutableDenseMatrix([[Integer(0)], [Integer(0)]])"
-                       "MutableDenseMatrix([[Symbol('O11'), Symbol('O21')], [Symbol('O21'), Symbol('O22')]])").
-Definition M_names (d : dist strG) : model strG :=
-  mkModel strG "m" "" ex_params (mkRvs strG [d] ex_levels_eta ex_levels_eps) [] ex_steps ex_di "PREDICTION"
+(* hash_order_blind / hash_complete: a model and the same model with its system entered in the other
+   order: different models, == statements, distinct names, same image in encoding order, same key *)
+Definition M_full (st : list (stmt strG)) : model strG :=
+  mkModel strG "m" "" ex_params ex_rvs st ex_steps ex_di "PREDICTION"
           [("Symbol('Y')", 1%Z)] [("Symbol('Y')", "Symbol('Y')")] None.
-Example hash_complete_example :
-  M_names joint <> M_names joint_list /\
-  model_json strG (M_names joint) = model_json strG (M_names joint_list) /\
-  model_values_jsonable strG (M_names joint) = true /\ model_values_jsonable strG (M_names joint_list) = true /\
+Example hash_order_blind_example :
+  M_full [SOde strG sys_cp] <> M_full [SOde strG sys_pc] /\
+  forallb (stmt_ok strG) [SOde strG sys_cp] = true /\ forallb (stmt_ok strG) [SOde strG sys_pc] = true /\
+  forallb (stmt_names_distinct strG) [SOde strG sys_cp] = true /\
+  stmts_eq strG [SOde strG sys_cp] [SOde strG sys_pc] = true /\
+  model_json strG (model_canon strG (M_full [SOde strG sys_cp])) = model_json strG (model_canon strG (M_full [SOde strG sys_pc])) /\
   (forall v, ex_dumps (normalise v) = ex_dumps v) /\
-  key strG ex_dumps string (fun s => s) "ds" (M_names joint) = key strG ex_dumps string (fun s => s) "ds" (M_names joint_list).
+  key strG ex_dumps string (fun s => s) "ds" (M_full [SOde strG sys_cp]) =
+  key strG ex_dumps string (fun s => s) "ds" (M_full [SOde strG sys_pc]).
 Proof.
   repeat split; try (vm_compute; reflexivity).
   - intro E. inversion E.
   - intros v. unfold ex_dumps. rewrite normalise_idem_all. reflexivity.
 Qed.
+
+(* the encoding order of a system with a relabelled (re-entered) compartment *)
+Example canon_example :
+  g_nodes strG (graph_canon strG (cs_g strG sys_pc)) = [NOut strG; NComp strG central; NComp strG periph] /\
+  names_distinct strG (cs_g strG sys_pc) = true /\ cs_ok strG (cs_canon strG sys_pc) = true.
+Proof. repeat split; vm_compute; reflexivity. Qed.
